@@ -7,7 +7,7 @@ trap 'git -C /repo checkout -q -- . ; git -C /repo clean -fdq' EXIT
 git apply /verif/seeded/$seed/patch.diff || { echo "patch does not apply"; exit 2; }
 cd /verif
 for p in "$@"; do
-  out=$(./bin/govc check --tier quick $p 2>&1); rc=$?
+  out=$(GOVC_EVIDENCE=/tmp/govc-dev-evidence ./bin/govc check --tier quick $p 2>&1); rc=$?
   echo "== $seed vs $p: exit=$rc"
   echo "$out" | grep -E "VIOLATION|failed obligation|KNOWN|tool error" | head -12
 done
